@@ -27,6 +27,8 @@ def c15Judge : Handler := fun j => do
   let t ← decTy (← getObj j "type")
   let vals ← (getListD j "values").mapM decGoVal
   return Json.mkObj [("wellFormed", Json.arr (vals.map fun v => Json.bool (wellFormed env 64 t v)).toArray),
-    ("admitsMany", Json.bool (admitsMany env 16 t))]
+    ("admitsMany", Json.bool (admitsMany env 16 t)),
+    -- hypothesis of theorem C15_terminates: the generated function returns, whatever the draws
+    ("returns", Json.bool (returns env 64 t))]
 
 end Gomacro.Drv
